@@ -40,6 +40,9 @@ CHECKS["C13"] = dict(design="4 C12/C13", technique="TLA+ spec (merge law over sy
 
 CHECKS["C10"] = dict(design="4 C10", technique="TLA+ spec (BuildPool: pooled builder residues) explored by TLC, every build history replayed in one process with the collector parked; concurrent builds under the race detector; every segment validated by TLC against its own batch (TraceLife)",
     text="BuildPool.tla enumerates every history of <=3 (quick) / <=4 (thorough) builds over batch shapes {empty, id-only, big with many fields/terms/locations/doc values, small with the same field but no doc values, synonym, mixed, rejected by the field validator after the builder was filled} plus pool-emptying collections, checks BuildIndependent, and emits the histories; the harness replays each in one process with GC disabled (the hook VerifBuilderResidue logs what the pooled builder carries over, so inheritance is evidence), followed by seeded shape sequences on generated batches and 6 goroutines building concurrently under -race. Every resulting segment is observed completely and validated by TLC against the specification of its own batch; a failed build must be explained by a rejected batch.")
+CHECKS["C11"] = dict(design="4 C11", technique="TLA+ spec (CtxPool: multi-process pool protocol) model-checked by TLC for every interleaving; every schedule replayed with parked visitors and pool snapshots (verif hook); concurrent readers under the race detector validated by TLC (TraceLife)",
+    note="Trusted: TLC; Go's race detector as dynamic monitor of the data-race clause on the schedules that ran; the pool snapshot hook (GOMAXPROCS(1), collector parked). A duplicate in a snapshot is sound evidence of a double Put; a missing object is never evidence.",
+    text="CtxPool.tla models Get / callback / Put of VisitStoredFields (visitors may park in any callback or stop early), DocID and the stored-field phase of a cancelled merge for 2 (quick) / 3 (thorough) goroutines; TLC checks Exclusive (one owner per scratch object, never twice in the pool) on every interleaving and refutes the original double-Put design on every run. Every distinct schedule is replayed on the real code with visitors parked at the callbacks: after each step the pool is snapshotted through the verif hook (no object twice), callback values are compared with StoredOf, bytes handed to a parked visitor are hashed before parking and after resuming. Then 8 goroutines make complete observations of shared built / opened / merged segments (each starting with an early-stopped visit) while merges use the segments as inputs, under -race; every observation is validated by TLC against the sequential answer.")
 HOOK_COMMITS = ["f76ac2a"]
 
 NA = {}
